@@ -34,6 +34,10 @@ def getTagLoop (out : Tag) : List Tag → Tag
 /-- `get_tag(tokens)` over the tokens' tags -/
 def getTag (ts : List Tag) : Tag := getTagLoop Gen.getTagDefault ts
 
+/-- `sorted(tags, key=cmp_to_key(compare_tags))` (stable merge sort; the ties of `compare_tags` are equal tags only,
+    `C33.cmp_eq_zero_iff`, so stability cannot be observed) -/
+def sortTags (l : List Tag) : List Tag := l.mergeSort (fun a b => decide (compareTags a b ≤ 0))
+
 /-! ### `PurePosixPath` as used by `get_job_step_name` / `get_job_tag` -/
 
 /-- split a character list on `/` (like `str.split("/")`) -/
